@@ -27,7 +27,7 @@ def build():
     with open(os.path.join(CRATE, "Cargo.toml"), "w") as f:
         f.write(toml)
     shutil.copy(os.path.join(REPO, "Cargo.lock"), os.path.join(CRATE, "Cargo.lock"))
-    env = dict(os.environ, CARGO_NET_OFFLINE="true", RUSTFLAGS="--cfg mamba_verif")
+    env = dict(os.environ, CARGO_NET_OFFLINE="true")
     p = subprocess.run(["cargo", "build", "--offline", "--manifest-path", os.path.join(CRATE, "Cargo.toml"),
                         "--target-dir", TARGET], capture_output=True, text=True, env=env)
     _built[REPO] = (p.returncode == 0, p.stderr[-4000:])
